@@ -95,9 +95,14 @@ def main():
             print("%-4s %-48s expect=%-6s %s" % ("ok" if ok else "FAIL", name, exp, " ".join("%s:%s%s" % (p, v["exit"] if isinstance(v, dict) else v, ("[" + ",".join(v["rules"]) + "]") if isinstance(v, dict) and v["rules"] else "") for p, v in res.items())), flush=True)
             if not ok:
                 bad += 1
-    if not args:
-        with open(os.path.join(HERE, "selftest", "RESULTS.json"), "w") as fh:
-            json.dump({"tier": tier, "results": results}, fh, indent=1, sort_keys=True)
+    rp = os.path.join(HERE, "selftest", "RESULTS.json")
+    if args and os.path.exists(rp):          # a filtered run updates the entries it re-ran
+        old = json.load(open(rp))
+        if old.get("tier") == tier:
+            old["results"].update(results)
+            results = old["results"]
+    with open(rp, "w") as fh:
+        json.dump({"tier": tier, "results": results}, fh, indent=1, sort_keys=True)
     print("patches: %d, expectation failures: %d" % (len(items), bad))
     return 1 if bad else 0
 
